@@ -56,9 +56,9 @@ type c19Out struct {
 	Paired   string `json:"constant_free_formula,omitempty"`
 	ValsOK   bool   `json:"values_agree"`
 	ValsNote string `json:"values_note,omitempty"`
-	Template string `json:"template,omitempty"`         // the {! ..} expression compiled once for the shared-object runs
-	SeqSteps int    `json:"sequence_steps,omitempty"`   // evaluations of the ONE compiled formula over a sequence of bindings
-	Conc     string `json:"concurrent,omitempty"`       // goroutines x evaluations of the ONE compiled formula at once
+	Template string `json:"template,omitempty"`       // the {! ..} expression compiled once for the shared-object runs
+	SeqSteps int    `json:"sequence_steps,omitempty"` // evaluations of the ONE compiled formula over a sequence of bindings
+	Conc     string `json:"concurrent,omitempty"`     // goroutines x evaluations of the ONE compiled formula at once
 }
 type c19Desc struct {
 	Input c19In  `json:"input"`
@@ -470,7 +470,7 @@ type kbCtx struct {
 	idx   map[int]string
 }
 
-func (c *kbCtx) GetMatch(i int) string { return c.idx[i] }
+func (c *kbCtx) GetMatch(i int) string  { return c.idx[i] }
 func (c *kbCtx) GetKey(k string) string { return c.names[k] }
 
 var _ expressions.KeyBuilderContext = &kbCtx{}
@@ -742,6 +742,9 @@ func sharedObjectRuns(f string, ps []piece, ex stdmath.Expr, t *tree, out *c19Ou
 	// (b) concurrent: only formulas that compute something from at least one variable
 	if len(names)+len(idx) == 0 || !t.hasOp() {
 		return tags
+	}
+	if len(tags) > 0 && strings.HasPrefix(tags[0], "adjacency") && hashStr(f)%4 != 0 {
+		return tags // quick-tier budget: one in four of the literal-adjacency formulas
 	}
 	if len(tags) > 0 && strings.HasPrefix(tags[0], "exhaustive") && hashStr(f)%2 == 1 {
 		return tags // quick-tier budget: every second formula of the exhaustive scope
@@ -1296,6 +1299,69 @@ func litCases() [][]piece {
 	return res
 }
 
+// Every literal form (decimal, decimal ending in e/E, exponent forms, leading/trailing dot, hex with
+// every possible last digit incl. e/E/b/B and x-/p-like shapes, binary, octal) directly followed by each
+// binary operator (with and without blanks), preceded by each, and next to parentheses. Which
+// of these are accepted, and their trees and values, is decided by the model's tokenizer.
+func adjacencyLiterals() []string {
+	ls := []string{"7", "12", "1.5", ".5", "5.", "1e", "2.5e", "1E", "2.5E", "0e", "1e3", "2.5E2", "1e0", ".5e", "5.e", "1.e2", "0.e",
+		"0b1", "0b10", "0B11", "0b1e", "0b", "0b1E", "0o7", "0o1e", "017", "08", "01e", "0x", "0X", "0x1p", "0x1p2", "0x1P2", "0x1ep1", "0x.ep1", "0x1x", "0xx", "0xep",
+		"1x", "1b", "1E5", "e", "E", "e1", "x2e", "1e1e", "1ee", "0xe1e", "0x1e1E"}
+	for _, stem := range []string{"0x", "0x1", "0xf", "0X1", "0xdeadbe"} {
+		for _, d := range "0123456789abcdefABCDEF" {
+			ls = append(ls, stem+string(d))
+		}
+	}
+	return ls
+}
+
+func adjacency() [][]piece {
+	var res [][]piece
+	ops := append([]string{"-"}, binOps...)
+	rights := []piece{{pNum, "2"}, {pVar, "x"}, {pVar, "[0]"}, {pNum, "3"}}
+	sp := piece{pSp, " "}
+	lit := func(l string) piece {
+		if _, ok := literalValue(l); ok {
+			return piece{pNum, l}
+		}
+		if l[0] >= '0' && l[0] <= '9' || l[0] == '.' {
+			return piece{pNum, l} // malformed number
+		}
+		return piece{pVar, l}
+	}
+	fewOps := []string{"-", "+", "*", "<=", "&&", "^"}
+	nBase := len(adjacencyLiterals()) - 5*22 // the hex last-digit sweep meets the six operators above, all other forms all 17
+	for li, l := range adjacencyLiterals() {
+		L := lit(l)
+		lops := ops
+		if li >= nBase {
+			lops = fewOps
+		}
+		for oi, o := range lops {
+			r := rights[(li+oi)%len(rights)]
+			res = append(res, []piece{L, op(o), r})         // 0x1e+2
+			res = append(res, []piece{L, sp, op(o), sp, r}) // 0x1e + 2
+			if (li+oi)%2 == 0 {
+				res = append(res, []piece{r, op(o), L}) // 2+0x1e
+			} else {
+				res = append(res, []piece{r, sp, op(o), sp, L}) // 2 + 0x1e
+			}
+		}
+		x := piece{pVar, "x"}
+		res = append(res,
+			[]piece{L, {pL, "("}, x, {pR, ")"}},                                              // 0x1e(x)
+			[]piece{{pL, "("}, L, {pR, ")"}},                                                 // (0x1e)
+			[]piece{{pL, "("}, x, {pR, ")"}, L},                                              // (x)0x1e
+			[]piece{{pL, "("}, L, {pR, ")"}, op("-"), x},                                     // (0x1e)-x
+			[]piece{{pFn, "abs"}, {pL, "("}, L, op("-"), x, op("^"), {pNum, "2"}, {pR, ")"}}, // abs(0x1e-x^2)
+			[]piece{x, op("*"), L, sp, op("+"), sp, {pVar, "y"}},                             // x*0x1E + y
+			[]piece{{pMinus, "-"}, L, op("+"), L},                                            // -0x1e+0x1e
+			[]piece{L, sp, L},                                                                // 0x1e 0x1e
+		)
+	}
+	return res
+}
+
 func gen(r *Rng, n int, tier string) []Case {
 	var cases []Case
 	add := func(ps []piece, tag string) {
@@ -1306,7 +1372,7 @@ func gen(r *Rng, n int, tier string) []Case {
 		cases = append(cases, c)
 		// the constant-free form is a formula of its own (its tree contains no folded constant)
 		d := c.Desc.(c19Desc)
-		if d.Impl.Paired != "" {
+		if d.Impl.Paired != "" && tag != "adjacency" {
 			u, _ := classify(ps)
 			if ps2, _, _, ok := constantFree(ps, u); ok {
 				cases = append(cases, c19Case(ps2, []string{tag + "/constant-free"}))
@@ -1322,6 +1388,16 @@ func gen(r *Rng, n int, tier string) []Case {
 	}
 	for _, ps := range exhaustive(L) {
 		add(ps, "exhaustive")
+	}
+	// every ordered pair of binary operators: x o1 y o2 z (all precedence and associativity decisions)
+	for _, o1 := range append([]string{"-"}, binOps...) {
+		for _, o2 := range append([]string{"-"}, binOps...) {
+			add([]piece{{pVar, "x"}, op(o1), {pVar, "y"}, op(o2), {pVar, "[0]"}}, "operator-pairs")
+		}
+	}
+	// literal adjacency: every literal form directly next to every operator and parenthesis
+	for _, ps := range adjacency() {
+		add(ps, "adjacency")
 	}
 	// a decimal text as a constant next to variables that the text bindings bind to the same text
 	for i := 0; i < 60+n/50; i++ {
@@ -1382,6 +1458,9 @@ func main() {
 			"Bindings through {! ..} include DECIMAL TEXTS as a matched field carries them: shortest round-trip texts of random float64 values (15-17 significant digits), neighbours of powers of ten, 17-19 digit strings with leading/trailing zeros " +
 			"(4 such bindings per formula, one of them binding every variable to the text of one of the formula's own literals; value of a text = strconv.ParseFloat); the constant-free form is also run through {! ..} with every literal bound as its own text " +
 			"and must render the value of the formula with the texts as constants; plus formulas `v == TEXT`, `v - (TEXT)`, `(v+1)*2 == (TEXT+1)*2` over those texts. " +
+			"Operator pairs: x o1 y o2 [0] for all 17 x 17 ordered pairs of binary operators. " +
+			"Literal adjacency: ~160 literal forms (decimals, decimals ending in e/E, exponent forms, leading/trailing dot, hex with every last digit 0-9a-fA-F over 5 stems, hex-float and x-/p-like shapes, binary, octal, malformed) " +
+			"directly followed by each of the 17 binary operators with and without blanks, preceded by each, followed by a group, inside a group, after a group, under a function and a unary minus; the model's tokenizer decides accept/reject, tree and value. " +
 			"Each case runs under a 4 s limit: a panic or hang is recorded as that case's outcome; after 4 hangs formulas sharing an operator with all hung ones are skipped. " +
 			"Distinct = distinct formula text; non-trivial = rejected, or uses a group/function/unary/non-decimal literal, or at least two binary operators.",
 		Gen:    gen,
